@@ -1436,7 +1436,7 @@ def reweight(weight, obs, **kwargs):
     """
     result = []
     for i in range(len(obs)):
-        if len(obs[i].cov_names):
+        if len(obs[i].cov_names) or len(weight.cov_names):
             raise ValueError('Error: Not possible to reweight an Obs that contains covobs!')
         if not set(obs[i].names).issubset(weight.names):
             raise ValueError('Error: Ensembles do not fit')
